@@ -179,7 +179,7 @@ def c11(tier_):
     return run_trace_check('C11', tier_, execs, relax=('live', 'memo'), oracle=True, level='model_checking',
         rule='(a) every transition of the 1-handle bounded model (all set/get/init_param/purge/sanity/set_vec/get_vec/display steps with valid and invalid names, marker values, vectors of length 0..2) replayed on the real library; (b) seeded random parameter-store histories on every non-fixture catalogue entry in both precisions (arbitrary finite values incl. the exact marker, invalid names, vectors of length 0..8); every read-back is compared with the specification map by TLC; (c) on every solution with an oracle every parameter is set, evaluators are called, parameters are set again and the evaluators called at the same points, judged by the numeric oracle (evaluators use the values last set). distinct = distinct (call, arguments) shapes',
         assumptions=COMMON_ASSUME + ['values are either exactly the marker or not within 1e-6 relative of it (the 1e-10 window of sanity_check is not observable)'],
-        mc=dict(states=s, transitions=t, distinct_transitions_replayed=nu, exhaustive=True))
+        mc=dict(states=s, transitions=t, distinct_transitions_replayed=nu, exhaustive=True, model_actions=replay.action_counts(edges)))
 
 
 def c10(tier_):
@@ -294,6 +294,8 @@ def value_check(pid, tier_, plan, kbits=14, rule='', extra_execs=(), all_known=F
     t0 = time.time()
     rng = random.Random(seed())
     execs = [gen.gen_values(rng, sol, nassign=na, npts=npt, evaluators=evs, mix=mix) for sol, evs, na, npt in plan] + list(extra_execs)
+    # the library's own default parameters (the inputs of every test and example of the repository)
+    execs += [gen.gen_default_values(rng, sol, npts=max(2, npt), evaluators=evs) for sol, evs, na, npt in plan]
     wd = workdir(pid)
     run_executions(execs, wd)
     kn = [k for k in KNOWN if k.get('status') == 'known' and 'sol' in k.get('match', {}) and (all_known or k.get('property') == pid)]
